@@ -37,6 +37,61 @@ CONFIG = {
 }
 
 
+def refused_problem_probe(_):
+    """C18 ("any element created before a problem exists is rejected"): whatever arguments a SchedulingProblem is refused with, the
+    refused object must not be left behind as the problem new elements attach to"""
+    import datetime
+    import itertools
+    import processscheduler as ps
+    import processscheduler.base as psbase
+    t0 = datetime.datetime(2024, 1, 1, 8, 0, 0)
+    t1 = datetime.datetime(2024, 1, 2, 8, 0, 0)
+    horizons = [None, 0, -1, 5, 'x']
+    deltas = [None, datetime.timedelta(0), datetime.timedelta(minutes=-5), datetime.timedelta(minutes=1)]
+    times = [(None, None), (t0, t0), (t1, t0), (t0, t1), (None, t0)]
+    out = {'tried': 0, 'refused': 0, 'problems': []}
+    for earlier in (False, True):
+        for hz, dt, (st, et) in itertools.product(horizons, deltas, times):
+            psbase.active_problem = None
+            p0 = ps.SchedulingProblem(name='Earlier', horizon=10) if earlier else None
+            kw = {}
+            if hz is not None:
+                kw['horizon'] = hz
+            if dt is not None:
+                kw['delta_time'] = dt
+            if st is not None:
+                kw['start_time'] = st
+            if et is not None:
+                kw['end_time'] = et
+            out['tried'] += 1
+            try:
+                ps.SchedulingProblem(name='Probe', **kw)
+                continue
+            except Exception:
+                out['refused'] += 1
+            what = 'SchedulingProblem(%s) was refused' % ', '.join('%s=%r' % kv for kv in kw.items())
+            if psbase.active_problem is not None and psbase.active_problem is not p0:
+                out['problems'].append(what + ' but is the problem new elements attach to')
+                continue
+            made = []
+            for label, mk in (('FixedDurationTask', lambda: ps.FixedDurationTask(name='ProbeTask', duration=1)),
+                              ('Worker', lambda: ps.Worker(name='ProbeWorker')),
+                              ('NonConcurrentBuffer', lambda: ps.NonConcurrentBuffer(name='ProbeBuffer', initial_level=0))):
+                try:
+                    obj = mk()
+                    made.append((label, obj))
+                except Exception:
+                    pass
+            if p0 is None and made:
+                out['problems'].append(what + '; no problem exists, yet these elements were accepted: ' + ', '.join(l for l, _ in made))
+            if p0 is not None:
+                lost = [l for l, o in made if o.name not in p0.tasks and o.name not in p0.workers and o.name not in [b.name for b in p0.buffers]]
+                if lost:
+                    out['problems'].append(what + '; elements created afterwards are not in the earlier problem: ' + ', '.join(lost))
+    psbase.active_problem = None
+    return out
+
+
 def load_corpus(prop):
     out = []
     d = os.path.join(common.VERIF, 'corpus', prop)
@@ -461,6 +516,15 @@ def run(ctx, replay=None):
                 'what_it_means': 'the values reported to the user differ from the values of the schedule the solver found (as Solution.v builds them)'})
             common.violation(ctx, path)
         cov['reported_values_slice'] = {'programs': len(sl), **sstats, 'breaks': len(sbreaks)}
+    if ctx.prop == 'C18' and replay is None:
+        pr = common.pmap(refused_problem_probe, [0])[0]
+        if pr.get('crashed'):
+            pr = {'tried': 0, 'refused': 0, 'problems': ['the probe crashed: ' + str(pr.get('error'))[:300]]}
+        for msg in pr['problems'][:2]:
+            path = common.write_replay(ctx, 'refused', {'kind': 'violation', 'property': 'C18', 'what': msg,
+                                                        'what_it_means': 'an element is accepted although no (successfully created) problem exists'})
+            common.violation(ctx, path)
+        cov['refused_problem_probe'] = {'constructor_calls': pr['tried'], 'refused': pr['refused'], 'problems': len(pr['problems'])}
     # ---- translator tie: the helper functions of util.py this property rests on, regenerated from /repo's source ----
     import srctie
     if ctx.prop in srctie.BY_PROP and replay is None:
